@@ -815,6 +815,17 @@ fn one<C: Col, W: Wrap<C>>(rec: &mut Rec, comps: &[C::P], alpha: C::P, light: bo
     rt_ev::<C, W>(rec, "json", W::NAME, false, comps, a, att(|| de_json::<W::V>(&jtext)), Obs { keys, depth, huenum, text: jtext.clone() });
     let rtext = att(|| ron::to_string(&v).map_err(|e| e.to_string()));
     rt_ev::<C, W>(rec, "ron", W::NAME, false, comps, a, att(|| de_ron::<W::V>(&rtext.clone()??)), Obs::none());
+    // the colour flattened into a struct of the user's (#[serde(flatten)]): its fields, alpha included, beside the user's
+    {
+        let h = HoldFlat { tag: 7, c: W::build(C::make(comps), alpha), tail: 9 };
+        let ft = att(|| serde_json::to_string(&h).map_err(|e| e.to_string()));
+        let ftext = match &ft { Ok(Ok(t)) => t.clone(), _ => format!("<{}>", msg(&ft)) };
+        let (mut keys, depth, huenum) = json_obs(&ftext);
+        if keys.iter().any(|k| k == "tag") && keys.iter().any(|k| k == "tail") { keys.retain(|k| k != "tag" && k != "tail"); }
+        rt_ev::<C, W>(rec, "json_flat", W::NAME, false, comps, a,
+                      att(|| de_json::<HoldFlat<W::V>>(&ftext).and_then(|h| if h.tag == 7 && h.tail == 9 { Ok(h.c) } else { Err("the user's own fields changed".to_string()) })),
+                      Obs { keys, depth, huenum, text: ftext.clone() });
+    }
     if !light {
         let seq_text = format!("[{}]", nitems(&tree).iter().map(tree_json).collect::<Vec<_>>().join(","));
         rt_ev::<C, W>(rec, "json_seq", W::NAME, false, comps, a, att(|| de_json::<W::V>(&seq_text)), Obs::none());
@@ -930,6 +941,14 @@ use palette::cast::{self, ArrayCast, UintCast};
 struct HoldArr<V> {
     #[serde(with = "palette::serde::as_array")]
     c: V,
+}
+#[derive(Serialize, Deserialize)]
+#[serde(bound(serialize = "V: Serialize", deserialize = "V: Deserialize<'de>"))]
+struct HoldFlat<V> {
+    tag: u32,
+    #[serde(flatten)]
+    c: V,
+    tail: u32,
 }
 #[derive(Serialize, Deserialize)]
 #[serde(bound(serialize = "V: UintCast, V::Uint: Serialize", deserialize = "V: UintCast, V::Uint: Deserialize<'de>"))]
